@@ -31,7 +31,7 @@ import (
 // C17 — issuers, verifiers and keys can be shared between goroutines.
 type c17 struct{ base }
 
-func init() { core.Register(c17{base{"C17", "exploration", 256, 4000}}) }
+func init() { core.Register(c17{base{"C17", "exploration", 512, 12000}}) }
 
 func (c17) Describe() core.Description {
 	return core.Description{
